@@ -35,6 +35,16 @@ func c13DiffOracle(der []byte, pos int) (key, oracle, detail string, class gen.S
 		if d := c13Exact(want, got); d != "" {
 			return "wrong-value:differential", "a well-formed extension yields exactly the encoded values", d, class
 		}
+		// the result is the caller's: what the caller does to it (here: every byte of its slices inverted) is nobody
+		// else's business - a later extraction of the same certificate returns the encoded values again
+		for i := range got.TCB.CPUSvn {
+			got.TCB.CPUSvn[i] ^= 0xff
+		}
+		for i := range got.TCB.CPUSvnComponents {
+			got.TCB.CPUSvnComponents[i] ^= 0xff
+		}
+		got.TCB.PCESvn ^= 0xffff
+		got.PPID, got.PCEID, got.FMSPC = "", "", ""
 	case gen.SgxDontCare:
 		// elements with unknown object identifiers are no components: the known elements that are there keep their values
 		if pv, filled, ok := gen.RefSgxPartial(der); ok && vd.Accepted() && got != nil && len(got.TCB.CPUSvnComponents) == 16 {
